@@ -356,20 +356,33 @@ def run(ctx):
                     if herald_in_place(c, rng):
                         ctx.bucket("herald_declared_in_place")
                         new_in = State(random_state(rng, c.input_modes, min(nph, 2)))
-                        smp_long.input_state = new_in
                         fresh = emu.Sampler(c, new_in)
-                        d_long = {tuple(st): p for st, p in smp_long.probability_distribution.items()}
                         d_fresh = {tuple(st): p for st, p in fresh.probability_distribution.items()}
+                        try:
+                            smp_long.input_state = new_in
+                            d_long = {tuple(st): p for st, p in smp_long.probability_distribution.items()}
+                        except Exception as e:  # noqa: BLE001
+                            d_long = None
+                            ctx.violation(f"after a herald was declared in place, the reused sampler raises "
+                                          f"{type(e).__name__}: {e} for an input a fresh sampler accepts", case=case,
+                                          mechanism="reused_after_in_place_herald:raises", monitor="relation checker")
                         ctx.count("rel_reused_after_in_place_herald")
-                        if d_long != d_fresh:
+                        if d_long is not None and d_long != d_fresh:
                             ctx.violation("after a herald was declared in place, the reused sampler's distribution differs "
                                           "from a fresh sampler's", case=case, mechanism="reused_after_in_place_herald",
                                           monitor="relation checker")
                         for meth in ("sample_N_outputs", "sample_N_inputs"):
                             try:
-                                r_long = dict(getattr(smp_long, meth)(200, seed=11))
                                 r_fresh = dict(getattr(fresh, meth)(200, seed=11))
                             except Exception:  # noqa: BLE001
+                                continue
+                            try:
+                                r_long = dict(getattr(smp_long, meth)(200, seed=11))
+                            except Exception as e:  # noqa: BLE001
+                                ctx.violation(f"after a herald was declared in place, {meth} of the reused sampler raises "
+                                              f"{type(e).__name__}: {e} where a fresh sampler succeeds", case=case,
+                                              mechanism="reused_after_in_place_herald:raises:" + meth,
+                                              monitor="relation checker")
                                 continue
                             if r_long != r_fresh:
                                 ctx.violation(f"after a herald was declared in place, {meth} of the reused sampler differs "
